@@ -345,8 +345,8 @@ type Backend interface {
 	// Fired reports (and clears) which fault actually hit: "", "fail",
 	// "crash-before", "crash-after".
 	Fired() string
-	Fence()       // the node dies now
-	Dead() bool   // node crashed, Restart needed
+	Fence()     // the node dies now
+	Dead() bool // node crashed, Restart needed
 	Restart() error
 	Close()
 }
@@ -404,16 +404,16 @@ func (b *kvBackend) open() error {
 	return nil
 }
 
-func (b *kvBackend) Name() string        { return "kv" }
-func (b *kvBackend) DB() paymentsdb.DB   { return b.store }
-func (b *kvBackend) SetYield(f func())   { b.yield = f }
-func (b *kvBackend) ArmFailBefore()      { b.kv.FailWrite(1) }
-func (b *kvBackend) ArmCrashBefore()     { b.kv.CrashBefore(1) }
-func (b *kvBackend) ArmCrashAfter()      { b.kv.CrashAfter(1) }
-func (b *kvBackend) Disarm()             { b.kv.Disarm() }
-func (b *kvBackend) Fence()              { b.kv.Fence() }
-func (b *kvBackend) Dead() bool          { return b.kv.Fenced() }
-func (b *kvBackend) Close()              { b.kv.Close() }
+func (b *kvBackend) Name() string      { return "kv" }
+func (b *kvBackend) DB() paymentsdb.DB { return b.store }
+func (b *kvBackend) SetYield(f func()) { b.yield = f }
+func (b *kvBackend) ArmFailBefore()    { b.kv.FailWrite(1) }
+func (b *kvBackend) ArmCrashBefore()   { b.kv.CrashBefore(1) }
+func (b *kvBackend) ArmCrashAfter()    { b.kv.CrashAfter(1) }
+func (b *kvBackend) Disarm()           { b.kv.Disarm() }
+func (b *kvBackend) Fence()            { b.kv.Fence() }
+func (b *kvBackend) Dead() bool        { return b.kv.Fenced() }
+func (b *kvBackend) Close()            { b.kv.Close() }
 func (b *kvBackend) Fired() string {
 	defer func() { b.kv.FiredFail, b.kv.FiredCrashBefore, b.kv.FiredCrashAfter = 0, 0, 0 }()
 	switch {
